@@ -213,7 +213,9 @@ def join(tokens, choices):
             elif c == 6:
                 sep = '\n'
             elif c == 7:
-                sep = ' (* a comment /\\ ~ x *) '
+                sep = [' (* a comment /\\ ~ x *) ', ' (* note **) ',
+                       ' (** doc **) ', ' (***) ', ' (* a * b ) *) '][
+                           (i + len(t)) % 5]
             elif c == 8:
                 sep = ' \\* trailing comment => y\n'
             else:
